@@ -498,6 +498,29 @@ func runC12(r *core.Run) int {
 		}
 		histories = append(histories, h)
 	}
+	// directed histories: every operation of one pattern in order, twice, then backwards and
+	// interleaved - more distinct replacement strings than any cache holds, each met again later
+	// (the random histories thin out as the alphabet grows)
+	{
+		byPat := map[int][]int{}
+		for i, op := range hOps {
+			byPat[op.pat] = append(byPat[op.pat], i)
+		}
+		for p := range hPatterns {
+			ops := byPat[p]
+			if len(ops) < 2 {
+				continue
+			}
+			h := append(append([]int(nil), ops...), ops...)
+			for i := len(ops) - 1; i >= 0; i-- {
+				h = append(h, ops[i])
+			}
+			for i := range ops {
+				h = append(h, ops[i], ops[(i+len(ops)/2)%len(ops)])
+			}
+			histories = append(histories, h)
+		}
+	}
 	// operations just below / above the stack-limit threshold of pattern 4, for bool and find calls:
 	// a history-dependent stack budget shows only within a few input lengths of the threshold
 	{
